@@ -85,7 +85,13 @@ func normCDF(x float64) float64 { return 0.5 * math.Erfc(-x/math.Sqrt2) }
 var (
 	alphaMu    sync.Mutex
 	alphaCache = map[int]*alphabet{}
-	pcKind     sync.Map // call site of Source.Uint64 -> primitive kind
+	// call site of Source.Uint64 -> primitive kind. Case bodies run sequentially in
+	// one goroutine, so a small linear cache without locking is enough.
+	pcCache [32]struct {
+		key  [3]uintptr
+		kind int
+	}
+	pcCacheN int
 )
 
 // callerKind classifies the math/rand/v2 primitive that is asking Source.Uint64
@@ -93,13 +99,15 @@ var (
 // stack above the source (a uniform drawn inside the slow path of ExpFloat64 is a
 // uniform draw); anything else (IntN, Perm, Shuffle, a raw Uint64) is an integer draw.
 func callerKind() int {
-	var key [4]uintptr
+	var key [3]uintptr
 	n := runtime.Callers(3, key[:])
 	if n == 0 {
 		return kindInt
 	}
-	if v, ok := pcKind.Load(key); ok {
-		return v.(int)
+	for i := 0; i < pcCacheN; i++ {
+		if pcCache[i].key == key {
+			return pcCache[i].kind
+		}
 	}
 	kind := kindInt
 	frames := runtime.CallersFrames(key[:n])
@@ -124,7 +132,10 @@ func callerKind() int {
 			break
 		}
 	}
-	pcKind.Store(key, kind)
+	if pcCacheN < len(pcCache) {
+		pcCache[pcCacheN].key, pcCache[pcCacheN].kind = key, kind
+		pcCacheN++
+	}
 	return kind
 }
 
@@ -268,6 +279,10 @@ type gridSrc struct {
 	n     int
 	cont  splitmix
 	limit int
+	// kinds[j] caches which primitive consumes answer j (-1 unknown). The sampler is
+	// deterministic, so it depends only on idx[:j]; enumeratePaths keeps the entries
+	// of the unchanged prefix between consecutive paths (the stack walk is the hot spot).
+	kinds []int8
 }
 
 type capExceeded struct{}
@@ -278,7 +293,14 @@ func (s *gridSrc) Uint64() uint64 {
 		panic(capExceeded{})
 	}
 	if s.n <= len(s.idx) {
-		return s.a.u[callerKind()][s.idx[s.n-1]]
+		j := s.n - 1
+		if s.kinds == nil {
+			return s.a.u[callerKind()][s.idx[j]]
+		}
+		if s.kinds[j] < 0 {
+			s.kinds[j] = int8(callerKind())
+		}
+		return s.a.u[s.kinds[j]][s.idx[j]]
 	}
 	return s.cont.next()
 }
@@ -299,8 +321,12 @@ func pathSeed(idx []int) uint64 {
 func enumeratePaths(a *alphabet, depth, drawCap int, body func(src *gridSrc) (ok bool), visit func(weight float64, draws int)) (paths int64) {
 	K := a.K
 	idx := make([]int, depth)
+	kinds := make([]int8, depth)
+	for j := range kinds {
+		kinds[j] = -1
+	}
 	for {
-		src := &gridSrc{a: a, idx: idx, cont: splitmix{pathSeed(idx)}, limit: drawCap}
+		src := &gridSrc{a: a, idx: idx, cont: splitmix{pathSeed(idx)}, limit: drawCap, kinds: kinds}
 		ok := body(src)
 		used := src.n
 		if used > depth {
@@ -322,6 +348,7 @@ func enumeratePaths(a *alphabet, depth, drawCap int, body func(src *gridSrc) (ok
 		}
 		for j := pos + 1; j < depth; j++ {
 			idx[j] = 0
+			kinds[j] = -1 // the answer at position pos changes: later askers may differ
 		}
 		for pos >= 0 {
 			idx[pos]++
@@ -333,6 +360,9 @@ func enumeratePaths(a *alphabet, depth, drawCap int, body func(src *gridSrc) (ok
 		}
 		if pos < 0 {
 			return paths
+		}
+		for j := pos + 1; j < depth; j++ {
+			kinds[j] = -1 // a carry changed the answer at position pos
 		}
 	}
 }
